@@ -38,9 +38,13 @@ def run(ctx):
     lowlevel_rule(ctx, prog, rid="C02.INDEXED")
     from props.c01 import triple_rule
     triple_rule(ctx, syn, rid="C02.TRIPLE")   # the metadata cascades read and clear rows of these maps
+    from props.c01 import row_rule
+    row_rule(ctx, syn, rid="C02.ROW")   # un-indexing a removed item removes exactly its own relation from each row
     rank_rule(ctx, syn)
     revisit_rule(ctx, syn)
     live_rule(ctx, prog)
+    r_ev, n_ev = every_rule(ctx, prog)
+    ctx.floor(r_ev, n_ev, 4, "cascade loops that remove dependents")
 
     # ---------------- CASC
     r_casc = ctx.rule("C02.CASC", "removing an item consults every reverse index that can name an annotation depending on it")
@@ -621,3 +625,46 @@ def scope_rule(ctx, prog, rid="C02.SCOPE"):
         if not sec:
             ctx.report(r, "%s|no-row-cleanup" % name, "AnnotationStore::%s no longer clears the item's own row of the metadata index (remove_second)" % name, b.file, b.line)
     ctx.floor(r, n, 2, "row clean-ups")
+
+
+# ---------------------------------------------------------------------- EVERY
+def every_rule(ctx, prog, rid="C02.EVERY", only=None):
+    """a cascade walks a row of a reverse index (or the data of a key) and removes every dependent it finds there.
+    In the MIR of each removal routine, a loop whose body calls a removal routine must call it on every path from the
+    head of the body back to the loop head: a filter in front of the call (`only if something refers to it`) leaves
+    dependents behind that the cascade was supposed to take along."""
+    r = ctx.rule(rid, "in the removal routines, a loop over dependents that removes them removes every one: no path through the loop body returns to the loop head without the removal call")
+    bodies = [b for bid, b in sorted(prog.bodies.items()) if re.search(r"^annotationstore::AnnotationStore::remove_(key|data|annotation|resource|dataset)$|::preremove$", bid) and not b.d.get("derived")]
+    if only:
+        bodies = [b for b in bodies if re.search(only, b.id)]
+    loops = 0
+    for b in bodies:
+        ctx.functions_analysed.add(b.id)
+        for L, t in b.calls():
+            if b.blocks[L].get("cleanup") or not (mirq.callee_of(t)[0] or "").endswith("Iterator::next"):
+                continue
+            # the blocks of the loop: reachable from the head and able to come back to it
+            inloop = set(x for x in b.reachable_blocks() if x != L and b.can_reach(L, x) and b.can_reach(x, L))
+            rm = sorted(bi for bi, t2 in b.calls() if bi in inloop and re.search(r"(^|::)remove(_\w+)?$", (mirq.callee_of(t2)[0] or "").split("<")[0]) and not re.search(r"^(std|core|alloc)::", mirq.callee_of(t2)[0] or ""))
+            if not rm:
+                continue
+            loops += 1
+            names = sorted(set(mirq.short_fn(mirq.callee_of(b.blocks[x]["t"])[0]) for x in rm))
+            r.hit("%s|%s" % (mirq.short_fn(b.id), ",".join(names)), sample={"routine": b.id, "removes_with": names, "loop_head_line": t.get("line")})
+            # a dependent that an earlier iteration's cascade has already taken along is skipped: the arm of a failed
+            # StoreFor::get / get_mut of the dependent from which no removal call is reachable any more
+            gone = set()
+            for G, t3 in b.calls():
+                if G in inloop and (mirq.callee_of(t3)[0] or "") in ("store::StoreFor::get_mut", "store::StoreFor::get") and "target" in t3:
+                    W = t3["target"]
+                    for _ in range(4):
+                        if b.blocks[W]["t"]["t"] == "switch" or len(b.succs(W)) != 1:
+                            break
+                        W = b.succs(W)[0]
+                    if b.blocks[W]["t"]["t"] == "switch":
+                        for s_ in b.succs(W):
+                            if s_ not in rm and not any(b.can_reach(s_, x, avoid={L}) for x in rm):
+                                gone.add(s_)
+            if b.can_reach(L, L, avoid=set(rm) | gone):
+                ctx.report(r, "%s|%s|skippable" % (mirq.short_fn(b.id), ",".join(names)), "%s walks its dependents and removes them with %s, but an iteration can come back to the loop head without that call: dependents that fail the test in front of it stay behind after the removal (e.g. data of a removed key that no annotation uses: still found by a scan, under a key that no longer exists)" % (b.id, "/".join(names)), b.file, t.get("line"))
+    return r, loops
